@@ -2,6 +2,11 @@
 """Print the prompt given to a fresh mutant-writing sub-agent for one property (only the property text + a worktree)."""
 import json, sys
 pid = sys.argv[1]; wt = sys.argv[2]; out = sys.argv[3]
+VARIANT = sys.argv[4] if len(sys.argv) > 4 else ''
+sfx = ('c', 'd') if VARIANT else ('a', 'b')
+DIV = '''
+
+Diversity requirement for this round: do NOT use (1) a cache/memoisation keyed on too little, (2) a shortcut that skips work when a tensor sums to zero / is all zero, or (3) a rewrite of the symmetric-extension index helper - those have been tried. At least one of your two changes must be of one of these kinds: an error in how an OPTION COMBINATION is handled (two options that each work alone), a change whose effect depends on TENSOR LAYOUT / DTYPE / requires_grad FLAGS rather than on sizes, a wrong constant or sign that only matters for ONE filter family or one mode, or TWO COOPERATING SITES (e.g. a helper and its caller, forward and backward) that each look correct alone.''' if VARIANT else ''
 p = [json.loads(l) for l in open('/verif/properties.jsonl') if json.loads(l)['id'] == pid][0]
 print(f"""You are helping to evaluate a verification effort for the open-source Python library fbcotter/pytorch_wavelets (differentiable 1D/2D DWT, stationary WT, dual-tree complex wavelet transform, DTCWT ScatterNet, on top of PyTorch).
 
@@ -13,9 +18,9 @@ Here is a semantic property of the library that should hold:
   Statement: {p['statement']}
   Quantified over: {p['quantifier']['text']}
 
-Your task: write TWO different, independent, realistic source changes to the library (each in the library code under {wt}/pytorch_wavelets, not the tests) that BREAK this property, while the library still imports and the existing test suite still passes exactly as before. Each change should look like something a developer could plausibly commit (a refactor gone subtly wrong, an "optimisation", an off-by-one in index/pad arithmetic, a wrong branch for a rare case, a stale cache, etc.), and must need something SPECIFIC to manifest - an unusual input size/shape/parity, a particular option combination, a particular wavelet/filter family, a particular value pattern in the input, a multi-step sequence of calls, or two cooperating sites that each look fine alone - NOT something ordinary use or the existing tests would expose at once. Keep each change small (a few lines).
+Your task: write TWO different, independent, realistic source changes to the library (each in the library code under {wt}/pytorch_wavelets, not the tests) that BREAK this property, while the library still imports and the existing test suite still passes exactly as before. Each change should look like something a developer could plausibly commit (a refactor gone subtly wrong, an "optimisation", an off-by-one in index/pad arithmetic, a wrong branch for a rare case, a stale cache, etc.), and must need something SPECIFIC to manifest - an unusual input size/shape/parity, a particular option combination, a particular wavelet/filter family, a particular value pattern in the input, a multi-step sequence of calls, or two cooperating sites that each look fine alone - NOT something ordinary use or the existing tests would expose at once. Keep each change small (a few lines).{DIV}
 
-For each change (call them a and b) deliver, in the directory {out}/{pid}a/ resp. {out}/{pid}b/ :
+For each change (call them {sfx[0]} and {sfx[1]}) deliver, in the directory {out}/{pid}{sfx[0]}/ resp. {out}/{pid}{sfx[1]}/ :
   - patch.diff  : `git -C {wt} diff` output of the change (relative to the unmodified worktree HEAD), applying cleanly with `git apply` at the repository root;
   - demo.py     : a small stand-alone program, run as `cd <repo root> && /venv/bin/python demo.py`-style from the repository root (it must import pytorch_wavelets from the current working directory: put `import sys; sys.path.insert(0, '.')` first), that exits 0 and prints PASS on the UNCHANGED library and exits 1 and prints FAIL on the changed library, demonstrating the violation of the property (compare against PyWavelets / the reference dtcwt package / a mathematically defined expectation as appropriate - not against hard-coded numbers copied from the changed code);
   - notes.txt   : 3-6 lines: what the change is, exactly what is needed for it to manifest, and why the existing tests do not see it.
